@@ -337,6 +337,7 @@ type instance struct {
 	hx, h2x     string
 	holder      map[int]string // 101 Root holder of heap, 102 Slots array of heap, 201 / 202 same for heap2
 	holderOf    map[string]int
+	dumped      int
 }
 
 func (w *world) newInstance() *instance {
@@ -778,23 +779,51 @@ func writeDump(dir string, w *world, in *instance, g *graph, line, bi, si int) {
 		}
 		return id
 	}
+	// full graph on every 10th line and right after a new realm pair was deployed; otherwise every data
+	// object (counted) + the code objects that own / are referred to by a data object (uncounted anchors)
+	full := line%10 == 1 || in.dumped == 0
+	in.dumped++
+	static := func(o *PObj) bool {
+		return o.Kind == "/gno.PackageValue" || o.Kind == "/gno.Block" || o.Kind == "/gno.FuncValue"
+	}
+	include := map[string]bool{}
+	for _, o := range g.objs {
+		if full || !static(o) {
+			include[o.ID] = true
+		}
+	}
+	if !full {
+		for _, o := range g.objs {
+			if static(o) {
+				continue
+			}
+			for _, r := range append(append([]string{}, o.Refs...), o.Owner) {
+				if c := g.by[r]; c != nil && static(c) {
+					include[r] = true
+				}
+			}
+		}
+	}
 	ext := []string{}
 	seen := map[string]bool{}
 	objs := map[string]any{}
 	for _, o := range g.objs {
+		if !include[o.ID] {
+			continue
+		}
 		refs := make([]string, 0, len(o.Refs))
 		for _, r := range o.Refs {
 			refs = append(refs, short(r))
 		}
 		for _, r := range append(append([]string{}, o.Refs...), o.Owner) {
-			if r != "" && g.by[r] == nil && !seen[r] {
+			if r != "" && !include[r] && !seen[r] {
 				seen[r] = true
-				if has(w.e.DB, r) {
+				if g.by[r] != nil || has(w.e.DB, r) {
 					ext = append(ext, short(r))
 				}
 			}
 		}
-		objs[short(o.ID)] = map[string]any{"ispkg": o.IsPkg, "rc": o.RC, "owner": short(o.Owner), "esc": o.Esc, "hashok": o.HashOK, "refs": refs}
+		objs[short(o.ID)] = map[string]any{"ispkg": o.IsPkg, "counted": full || !static(o), "rc": o.RC, "owner": short(o.Owner), "esc": o.Esc, "hashok": o.HashOK, "refs": refs}
 	}
 	bz, _ := json.Marshal(map[string]any{"l": line, "beh": bi, "step": si, "objs": objs, "ext": ext})
 	if err := os.WriteFile(fmt.Sprintf("%s/realm_dump_%d.json", dir, line), append(bz, '\n'), 0o644); err != nil {
